@@ -599,6 +599,8 @@ def slots_of(idx: ProgramIndex, cls: ClassInfo) -> set:
                 continue
             for n in walk_no_nested(fn.node):
                 if isinstance(n, ast.Assign):
+                    if isinstance(n.value, ast.Constant):
+                        continue  # constant reset of a cache attribute (probe_vectors = None), not a protocol slot
                     for t in n.targets:
                         for tt in (t.elts if isinstance(t, (ast.Tuple, ast.List)) else [t]):
                             if isinstance(tt, ast.Attribute):
@@ -1105,7 +1107,10 @@ def run(idx: ProgramIndex, rep: Report, tier: str, selftest: bool = True):
     # composite = its __enter__ forwards to sub-contexts
     def is_composite(c: ClassInfo) -> bool:
         fn = idx.resolve_method(c, "__enter__")
-        return any(isinstance(n, ast.Attribute) and n.attr in ("__enter__", "enter_context") for n in ast.walk(fn.node))
+        # forwarding to sub-contexts - self.part.__enter__(), stack.enter_context(part) - but not to super().__enter__()
+        return any(isinstance(n, ast.Attribute) and n.attr in ("__enter__", "enter_context")
+                   and not (isinstance(n.value, ast.Call) and isinstance(n.value.func, ast.Name) and n.value.func.id == "super")
+                   for n in ast.walk(fn.node))
 
     leaves = {c.name: c for c in ctx if not is_composite(c)}
     composites = {c.name: c for c in ctx if is_composite(c)}
